@@ -53,8 +53,8 @@ BigBad   == <<"12x", "9223372036854775808", "abc", "0x1F", "1_000">>            
 Canon(txt) == CASE txt = "007" -> "7" [] txt = "+5" -> "5" [] txt = "0000010" -> "10" [] txt = "00000777" -> "777" [] OTHER -> txt
 BoolOk   == <<"true", "false", "1", "0">>
 BoolBad  == <<"maybe", "2">>
-StrOk    == <<"abc", "#tag", "a b", "x,y", "q\"t", "s;t", "p|q", "tab\tx", "two\nlines", "it's", " lead">>
-StrPlain == <<"#tag", "abc", "def", "xyz">>                                                  \* need no quoting under any separator
+StrOk    == <<"abc", "a b", "#tag", "x,y", "q\"t", "s;t", "p|q", "tab\tx", "two\nlines", "it's", " lead">>
+StrPlain == <<"abc", "def", "#tag", "xyz">>                                                  \* need no quoting under any separator
 
 Is32(txt) == InSeq(txt, IntOk)
 Is64(txt) == InSeq(txt, IntOk) \/ InSeq(txt, BigOk) \/ txt \in {"-2147483649"}
